@@ -429,6 +429,11 @@ func NewRunner(script string) *Runner {
 		// a host that takes the list of a hash's entries to put it into an
 		// order of its own (for a report, say) works on a list that is its own
 		for _, a := range args {
+			// ... and one that builds a longer array from the members of one it
+			// was given (append) writes to memory that belongs to nobody else
+			if arr, ok := a.(*object.Array); ok && arr != nil && len(arr.Elements) > 0 {
+				_ = append(arr.Elements, &object.String{Value: "appended by the host"})
+			}
 			if h, ok := a.(*object.Hash); ok && h != nil {
 				es := h.Entries()
 				for i, j := 0, len(es)-1; i < j; i, j = i+1, j-1 {
